@@ -20,6 +20,13 @@ func init() {
 	register("C09", "model_checking", checkC09)
 }
 
+func fsTraceN(r *evid.Run) int {
+	if r.Tier == "thorough" {
+		return 600
+	}
+	return 60
+}
+
 func fsTier(r *evid.Run, id string) (string, time.Duration) {
 	if r.Tier == "thorough" {
 		return "MC_" + id + "_thorough.cfg", 40 * time.Minute
@@ -74,6 +81,8 @@ func checkC06(r *evid.Run) {
 	for _, cfg := range cfgs {
 		checkC06Model(r, pool, cfg, timeout)
 	}
+	// beyond the bound: random histories (bigger forests, more names, environment steps, several calls) validated by TLC
+	traceFsHistories(r, pool, fsTraceN(r), fsTraceMix{hostile: 0.05, long: 0.1, mkdir: 6, dry: 1, verify: 1, envw: 3}, []string{"C06_"})
 	// Mkdir under every option sequence (Options.tla): the last extension list and target win, nothing else matters
 	checkOptions(r, "rule", []int{0}, func(s *optState) bool { return s.Op == "mkdir" && tla.S(s.Rule["k"]) == "mkdir" })
 	r.Set("exhaustive", true)
@@ -156,6 +165,7 @@ func checkC07(r *evid.Run) {
 	for _, cfg := range []string{cfg, "MC_C07_deep.cfg"} {
 		checkC07Model(r, pool, cfg, timeout)
 	}
+	traceFsHistories(r, pool, fsTraceN(r), fsTraceMix{hostile: 0.6, long: 0.05, mkdir: 5, dry: 3, verify: 0, envw: 2}, []string{"C07_"})
 	r.Set("exhaustive", true)
 	r.Set("rule", "every forest up to the bound over {a, '.', '..', 'a/b', '/a', '../a'} at every node position x {From-Markdown, From-Root, deprecated aliases} x {dry-run, real} x {simple, massive} x 2 extension lists x {target present, missing}, and every forest of 4 items up to depth 4 over {a, '.. ', '..'}; the jail sits three directories below a scratch root that is snapshotted as a whole; non-trivial = forest with a hostile name")
 	r.Assume("checks run as root: permissions are not relied on as a guard; an escape of up to three levels is visible")
@@ -288,6 +298,7 @@ func checkC08(r *evid.Run) {
 			}
 		}
 	})
+	traceFsHistories(r, pool, fsTraceN(r), fsTraceMix{hostile: 0.05, long: 0.05, mkdir: 3, dry: 0, verify: 6, envw: 4}, []string{"C08_"})
 	// Verify under every option sequence (Options.tla): the last target and strictness win, nothing else matters
 	checkOptions(r, "rule", []int{0}, func(s *optState) bool { return s.Op == "verify" })
 	r.Set("exhaustive", true)
@@ -388,6 +399,7 @@ func checkC09(r *evid.Run) {
 			}
 		}
 	})
+	traceFsHistories(r, pool, fsTraceN(r), fsTraceMix{hostile: 0.3, long: 0.05, mkdir: 1, dry: 6, verify: 1, envw: 2}, []string{"C09_"})
 	// dry run under every option sequence (Options.tla): dry run wins over an encoder; report and name validation as without
 	checkOptions(r, "rule", []int{0, 1}, func(s *optState) bool { return tla.S(s.Rule["k"]) == "report" })
 	r.Set("exhaustive", true)
